@@ -191,6 +191,26 @@ def sub_run(args, stdin_text):
             "err": err.decode("utf-8", "replace")}
 
 
+def _empty_task(vfs):
+    """-v "" / no vector, any version flags: interactive session, immediate end of input."""
+    empty = sweep.new_acc()
+    for vf in vfs:
+        for of in OTHER_FLAGS:
+            for argv in (vf + of, vf + of + ["-v", ""], vf + of + ["--vector="]):
+                empty["n"] += 1
+                empty["calls"] += 1
+                empty["cmp"] += 1
+                r = cli.run_main(argv, "")
+                why = cli.basic(r)
+                if why:
+                    sweep.bad(empty, {"what": "cvss_calculator %s with empty stdin: %s" % (" ".join(map(repr, argv)), why),
+                                      "kind": "cli_empty", "input": {"argv": argv},
+                                      "signature": {"kind": "cli_empty"}})
+                else:
+                    empty["nontrivial"] += 1
+    return empty
+
+
 def _sub_task(t):
     acc = sweep.new_acc()
     for args, vec in t:
@@ -215,25 +235,11 @@ def _sub_task(t):
 def run(ctx, res):
     vecs = vectors()
     tasks = [(vf, vecs) for vf in VERSION_FLAGS]
-    accs = core.pool_map(_vec_task, ctx.rot(tasks))
-    # -v "" / no vector with several or no version flags: interactive session, immediate end of input
-    empty = sweep.new_acc()
-    for vf in VERSION_FLAGS:
-        for of in OTHER_FLAGS:
-            for argv in (vf + of, vf + of + ["-v", ""], vf + of + ["--vector="]):
-                empty["n"] += 1
-                empty["calls"] += 1
-                empty["cmp"] += 1
-                r = cli.run_main(argv, "")
-                why = cli.basic(r)
-                if why:
-                    sweep.bad(empty, {"what": "cvss_calculator %s with empty stdin: %s" % (" ".join(map(repr, argv)), why),
-                                      "kind": "cli_empty", "input": {"argv": argv},
-                                      "signature": {"kind": "cli_empty"}})
-                else:
-                    empty["nontrivial"] += 1
+    accs = core.task_map(_vec_task, ctx.rot(tasks))
+    empty = sweep.merge(core.task_map(_empty_task, [[vf] for vf in VERSION_FLAGS]))
+    empty["extra"] = {}
     itasks = [(vf, of) for vf in VERSION_FLAGS if len(vf) <= 1 for of in OTHER_FLAGS]
-    accs_i = core.pool_map(_int_task, ctx.rot(itasks))
+    accs_i = core.task_map(_int_task, ctx.rot(itasks))
     # real subprocesses
     sub = []
     vset = vecs if ctx.thorough else vecs[::3]
@@ -243,7 +249,10 @@ def run(ctx, res):
                 sub.append((vf + of, v))
             sub.append((vf + of, None))
     accs_s = core.pool_map(_sub_task, [sub[i::32] for i in range(32)])
-    tot = sweep.merge(accs + [empty] + accs_i + accs_s)
+    tot = sweep.merge(accs + accs_i + accs_s)
+    for k in ("n", "calls", "cmp", "nontrivial", "nbad"):
+        tot[k] += empty[k]
+    tot["bad"] += empty["bad"]
     cov = res.coverage
     cov["states"] = tot["n"]
     cov["transitions"] = tot["calls"]
@@ -288,3 +297,7 @@ def replay(case):
             why = cli.judge_vector(i["args"], i["vector"], sub_run(i["args"] + ["--vector=" + i["vector"]], ""),
                                    "-j" in i["args"])
     return bool(why), why or "as the API reports"
+
+
+def replay_task(case):
+    return core.replay_func_task(case)
